@@ -179,6 +179,39 @@ Theorem c13_default_is_general : forall m,
 Proof. intros m. split; [exact compile_default|]. split; [apply format_default_json|apply format_default_text]. Qed.
 Print Assumptions c13_default_is_general.
 
+(* ---- timestamps (the datetime / datetimenano renderers, time.Format(RFC3339Nano) in UTC) are exact ----------
+   Spec/Calendar.v reads "YYYY-MM-DDTHH:MM:SS[.fraction]Z" back, with the calendar written by COUNTING days (365 a
+   year, leap days by the 4 / 100 / 400 rule), independently of the date arithmetic of the model.  For EVERY instant
+   from 1970-01-01 to the end of the year 9999 and every nanosecond: the text the renderer writes denotes exactly
+   that instant (Proofs/CalendarP.v: one 400-year era checked day by day by the kernel, then periodicity). *)
+From GF Require Import Spec.Calendar Proofs.CalendarP.
+Theorem c13_timestamp_text_exact : forall sec ns s,
+  ns < 1000000000 -> rfc3339 sec ns = Some s -> parse_ts s = Some (sec, ns).
+Proof. exact rfc3339_exact. Qed.
+Print Assumptions c13_timestamp_text_exact.
+Theorem c13_timestamp_in_range : forall sec ns, sec < 253402300800 -> exists s, rfc3339 sec ns = Some s.
+Proof. exact rfc3339_total. Qed.
+Theorem c13_datetimenano_denotes_the_column : forall m f n s,
+  apply_renderer "DateTimeNanoRenderer" m f (Some (GU64 n)) = Some (OStr s) ->
+  parse_ts s = Some (n / 1000000000, n mod 1000000000).
+Proof. exact datetimenano_exact. Qed.
+Print Assumptions c13_datetimenano_denotes_the_column.
+Theorem c13_datetime_denotes_the_column : forall m f n s,
+  apply_renderer "DateTimeRenderer" m f (Some (GU64 n)) = Some (OStr s) -> parse_ts s = Some (n, 0).
+Proof. exact datetime_exact. Qed.
+(* the day number <-> date correspondence behind it, for every day *)
+Theorem c13_calendar_exact : forall n,
+  let '(y, m, d) := civil n in
+  1970 <= y /\ 1 <= m /\ m <= 12 /\ 1 <= d /\ d <= mdays y m /\ days_of_civil y m d = n.
+Proof. exact civil_exact. Qed.
+Print Assumptions c13_calendar_exact.
+Example c13_timestamp_examples :
+  rfc3339 1700000000 123000000 = Some (bytes_of_string "2023-11-14T22:13:20.123Z") /\
+  rfc3339 951782400 0 = Some (bytes_of_string "2000-02-29T00:00:00Z") /\
+  rfc3339 253402300799 999999999 = Some (bytes_of_string "9999-12-31T23:59:59.999999999Z") /\
+  rfc3339 253402300800 0 = None.
+Proof. vm_compute. repeat split. Qed.
+
 (* non-vacuity: a mapping file with a field list, a rename, renderers, a virtual field and two custom fields
    compiles; a message carrying one of the custom fields (twice: it is an array) is written as expected *)
 Local Open Scope string_scope.
